@@ -292,6 +292,9 @@ class Monitor:
                 return fn(*args, **kwargs)
             if not mon.enabled:
                 return fn(*args, **kwargs)
+            if c.oracle_op:
+                mon.stats["checked"] += 1          # checked by the calling explorer operation's oracle
+                return fn(*args, **kwargs)
             return mon.checked_call(qualname, c, fn, sig, args, kwargs)
         wrapper.__name__ = getattr(fn, "__name__", "wrapped")
         wrapper.__wrapped__ = fn
